@@ -151,6 +151,15 @@ CHECKS = {
         design_ref="3 C19",
         technique="CrossHair (z3) exploration of the real code with an interference effect at a symbolic call boundary over a catalog stub",
     ),
+    "C02": dict(
+        category="other",
+        text="Bounded symbolic execution (CrossHair/z3): the real folding transform, identifier equality and connect() on symbolic identifier text "
+        "(any unicode, length-bounded); a differential harness over the whole real pipeline in which the letter case of each keyword / unquoted "
+        "identifier token of 49 statement skeletons is a symbolic choice and the complete observable outcome (SQL reaching the engine modulo "
+        "DuckDB's own case-insensitivity, rows, status, error, session, variables, catalog) must equal that of the all-upper spelling.",
+        design_ref="3 C02",
+        technique="CrossHair (z3) on real functions with symbolic strings; differential (metamorphic) harness with symbolic case bits over an engine stub; replay on the real stack",
+    ),
 }
 
 NOT_YET = "not claimed yet: check not built in this round (see DESIGN.md 7 for the order of work)"
